@@ -2047,6 +2047,7 @@ static int parse_table(struct scanner_s *scanner, cif_value_tp **tablep) {
                             TVALUE_LENGTH(scanner), &value)) == CIF_OK) {
                         result = cif_value_get_text(value, &key);
                         cif_value_free(value); /* ignore any error */
+                        value = NULL;          /* the entry's value is parsed into an object obtained below */
                         CONSUME_TOKEN(scanner);
                         if (result == CIF_OK) {
                             break;
